@@ -123,6 +123,8 @@ func runC25(c *Ctx) {
 		} else {
 			r.Bad("C25.R1", FuncID(fn), "wrong-password-branch", p.Pos(fn.Pos()), "the !ok edge of validateUserPassword does not directly return ErrWrongPassword")
 		}
+	} else {
+		r.Bad("C25.R1", "pkg/pdfcpu.setupEncryptionKey", "anchor", "", "UNRESOLVED-ANCHOR: function not found")
 	}
 	// ---- R1b: validators
 	for _, v := range c25Validators {
@@ -259,6 +261,8 @@ func runC25(c *Ctx) {
 				r.OK("C25.R2", FuncID(fn), "owner-only-shortcut", p.Pos(fn.Pos()), "every success return lies on a needs(cmd)==false edge or after validateUserPassword returned true", true)
 			}
 		}
+	} else {
+		r.Bad("C25.R2", "pkg/pdfcpu.setupEncryptionKey", "anchor", "", "UNRESOLVED-ANCHOR: function not found")
 	}
 	// ---- R3: updateEncryption ordering
 	if fn := p.Func("pkg/pdfcpu.updateEncryption"); fn == nil {
